@@ -7,6 +7,7 @@ CONSTANTS
   WakeOffset = 0
   KeepFirstWaker = FALSE
   AvailLe = FALSE
+  WakeBeforeDecrement = FALSE
 SPECIFICATION TSpec
 INVARIANTS C17_TotalIsGuards C17_WakeOnRelease
 POSTCONDITION TraceAccepted
